@@ -317,41 +317,78 @@ fn check_liquidity_quote(h: &mut Hist, c: &QuoteCase, l: &mut Local) -> Result<(
     let (ua, ub) = (h.w.user_token_existing(owner, &pl.mint_a.key), h.w.user_token_existing(owner, &pl.mint_b.key));
     let (a0, b0) = (h.w.balance(&ua), h.w.balance(&ub));
     let what = |s: &str| format!("{s} of L={} on [{}, {}] at price {} (tick {}), fees {:?}/{:?}", q.liquidity, pd.tick_lower_index, pd.tick_upper_index, st.sqrt_price, st.tick_current_index, pl.mint_a.transfer_fee, pl.mint_b.transfer_fee);
+    // variant: 0 = quote by liquidity; 1 / 2 = quote from a token A / B amount (the liquidity is then the quote's own)
+    let variant = (q.slippage_bps / 7) % 3;
     if q.increase {
-        let liq = q.liquidity;
-        let (p, lo, hi) = (st.sqrt_price, pd.tick_lower_index, pd.tick_upper_index);
-        let sdkq = quiet(move || sdk::increase_liquidity_quote(liq, slippage, p, lo, hi, tfa, tfb));
+        let (p, lo, hi, amt) = (st.sqrt_price, pd.tick_lower_index, pd.tick_upper_index, q.amount);
+        let liq_in = q.liquidity;
+        let sdkq = quiet(move || match variant {
+            1 => sdk::increase_liquidity_quote_a(amt, slippage, p, lo, hi, tfa, tfb),
+            2 => sdk::increase_liquidity_quote_b(amt, slippage, p, lo, hi, tfa, tfb),
+            _ => sdk::increase_liquidity_quote(liq_in, slippage, p, lo, hi, tfa, tfb),
+        });
+        let liq = match (variant, &sdkq) {
+            (0, _) => q.liquidity,
+            (_, Ok(Ok(x))) => x.liquidity_delta,
+            _ => {
+                l.count("liquidity/increase_quote_from_amount_refused");
+                return Ok(());
+            }
+        };
+        if liq == 0 {
+            l.count("liquidity/increase_quote_zero_liquidity");
+            return Ok(());
+        }
         // program with neutral maxima
         let mut w = h.w.clone();
-        let o = w.exec(&w.ix_increase(pos, q.liquidity, u64::MAX, u64::MAX, v2));
+        let o = w.exec(&w.ix_increase(pos, liq, u64::MAX, u64::MAX, v2));
         if o.ok() {
             let (paid_a, paid_b) = (a0 - w.balance(&ua), b0 - w.balance(&ub));
             let quote = match sdkq {
                 Ok(Ok(x)) => x,
-                other => return Err(format!("{}: the program accepts it (paid {paid_a}, {paid_b}) but increase_liquidity_quote gives {other:?}", what("increase"))),
+                other => return Err(format!("{}: the program accepts it (paid {paid_a}, {paid_b}) but the SDK's increase quote (variant {variant}) gives {other:?}", what("increase"))),
             };
+            if quote.liquidity_delta != liq {
+                return Err(format!("{}: quote reports liquidity {}", what("increase"), quote.liquidity_delta));
+            }
             if (quote.token_est_a, quote.token_est_b) != (paid_a, paid_b) {
-                return Err(format!("{}: owner paid ({paid_a}, {paid_b}), quote estimated ({}, {})", what("increase"), quote.token_est_a, quote.token_est_b));
+                return Err(format!("{} (L={liq}, quote variant {variant}): owner paid ({paid_a}, {paid_b}), quote estimated ({}, {})", what("increase"), quote.token_est_a, quote.token_est_b));
             }
             if quote.token_max_a < quote.token_est_a || quote.token_max_b < quote.token_est_b {
                 return Err(format!("{}: slippage-adjusted maxima ({}, {}) below the estimates ({}, {})", what("increase"), quote.token_max_a, quote.token_max_b, quote.token_est_a, quote.token_est_b));
             }
+            if variant == 1 && quote.token_est_a > q.amount || variant == 2 && quote.token_est_b > q.amount {
+                l.count("liquidity/quote_from_amount_estimates_more_than_the_given_amount");
+            }
             let mut w2 = h.w.clone();
-            let o2 = w2.exec(&w2.ix_increase(pos, q.liquidity, quote.token_max_a, quote.token_max_b, v2));
+            let o2 = w2.exec(&w2.ix_increase(pos, liq, quote.token_max_a, quote.token_max_b, v2));
             if !o2.ok() {
                 return Err(format!("{}: with the quote's maxima ({}, {}) the increase fails ({:?})", what("increase"), quote.token_max_a, quote.token_max_b, o2.code()));
             }
-            l.count("liquidity/increase_agree");
+            l.count(&format!("liquidity/increase_agree/variant{variant}"));
         } else {
             l.count(&format!("liquidity/increase_refused/{}", o.code().unwrap_or(0)));
         }
     } else {
-        let liq = q.liquidity.min(pd.liquidity);
-        if liq == 0 {
+        let (p, lo, hi, amt) = (st.sqrt_price, pd.tick_lower_index, pd.tick_upper_index, q.amount);
+        let liq_in = q.liquidity.min(pd.liquidity);
+        let sdkq = quiet(move || match variant {
+            1 => sdk::decrease_liquidity_quote_a(amt, slippage, p, lo, hi, tfa, tfb),
+            2 => sdk::decrease_liquidity_quote_b(amt, slippage, p, lo, hi, tfa, tfb),
+            _ => sdk::decrease_liquidity_quote(liq_in, slippage, p, lo, hi, tfa, tfb),
+        });
+        let liq = match (variant, &sdkq) {
+            (0, _) => liq_in,
+            (_, Ok(Ok(x))) => x.liquidity_delta,
+            _ => {
+                l.count("liquidity/decrease_quote_from_amount_refused");
+                return Ok(());
+            }
+        };
+        if liq == 0 || liq > pd.liquidity {
+            l.count("liquidity/decrease_quote_not_applicable");
             return Ok(());
         }
-        let (p, lo, hi) = (st.sqrt_price, pd.tick_lower_index, pd.tick_upper_index);
-        let sdkq = quiet(move || sdk::decrease_liquidity_quote(liq, slippage, p, lo, hi, tfa, tfb));
         let mut w = h.w.clone();
         let o = w.exec(&w.ix_decrease(pos, liq, 0, 0, v2));
         if o.ok() {
@@ -361,7 +398,7 @@ fn check_liquidity_quote(h: &mut Hist, c: &QuoteCase, l: &mut Local) -> Result<(
                 other => return Err(format!("{}: the program accepts it (returned {got_a}, {got_b}) but decrease_liquidity_quote gives {other:?}", what("decrease"))),
             };
             if (quote.token_est_a, quote.token_est_b) != (got_a, got_b) {
-                return Err(format!("{}: owner received ({got_a}, {got_b}), quote estimated ({}, {})", what("decrease"), quote.token_est_a, quote.token_est_b));
+                return Err(format!("{} (L={liq}, quote variant {variant}): owner received ({got_a}, {got_b}), quote estimated ({}, {})", what("decrease"), quote.token_est_a, quote.token_est_b));
             }
             if quote.token_min_a > quote.token_est_a || quote.token_min_b > quote.token_est_b {
                 return Err(format!("{}: slippage-adjusted minima above the estimates", what("decrease")));
@@ -371,7 +408,7 @@ fn check_liquidity_quote(h: &mut Hist, c: &QuoteCase, l: &mut Local) -> Result<(
             if !o2.ok() {
                 return Err(format!("{}: with the quote's minima ({}, {}) the decrease fails ({:?})", what("decrease"), quote.token_min_a, quote.token_min_b, o2.code()));
             }
-            l.count("liquidity/decrease_agree");
+            l.count(&format!("liquidity/decrease_agree/variant{variant}"));
         } else {
             l.count(&format!("liquidity/decrease_refused/{}", o.code().unwrap_or(0)));
         }
